@@ -973,6 +973,11 @@ def r2(run, reach):
         for bid, t in prog.calls(p):
             n = Program.callee_name(t)
             if re.search(r"^core::iter::sources::(repeat|repeat_with|from_fn|successors)|Iterator::cycle$|^core::iter::sources::repeat::repeat$", n):
+                # bounded at once by take(n): `repeat(x).take(n)`
+                uses = prog.slicer(p).forward_uses(t["dst"]["l"]) if not t["dst"]["p"] else []
+                if uses and all(u.get("k") == "call" and re.search(r"Iterator::take$", Program.callee_name(u)) and idx == 0 for u, idx in uses):
+                    run.ok("C01.R2", "unbounded iterator source in %s is bounded by take(n) at once" % short(p), where(t), nontrivial=False)
+                    continue
                 run.bad("C01.R2", "unbounded-iterator/%s" % short(p), where(t), "%s uses the unbounded iterator source %s" % (short(p), n))
             if n.endswith("IntoIterator>::into_iter") and t.get("arg_tys") and t["arg_tys"][0].startswith("core::ops::range::RangeFrom<"):
                 run.bad("C01.R2", "unbounded-range/%s" % short(p), where(t), "%s iterates an unbounded range" % short(p))
